@@ -65,3 +65,29 @@ package resharing
 //@   loop 0 invariant ret ==> (forall k in 0..$iter :: round.oldOK[k])
 //@   loop 0 invariant round.save.ECDSAPub != nil ==> (wfPoint(round.save.ECDSAPub) && (old(round.save.ECDSAPub) != nil ==> (px(round.save.ECDSAPub) == old(px(round.save.ECDSAPub)) && py(round.save.ECDSAPub) == old(py(round.save.ECDSAPub)))))
 //@   loop 0 invariant old(round.save.ECDSAPub) != nil ==> round.save.ECDSAPub != nil
+
+// rounds.go WaitingFor: the union of the awaited old and new members (collected
+// in a map, then listed in map order).
+//@ define rsOldIDs(round) = round.ReSharingParameters.Parameters.parties.partyIDs
+//@ define rsNewIDs(round) = round.ReSharingParameters.newParties.partyIDs
+//@ define rsAwaited(round, id) = ((exists j in 0..len(round.oldOK) :: (!round.oldOK[j] && rsOldIDs(round)[j] == id)) || (exists j in 0..len(round.newOK) :: (!round.newOK[j] && rsNewIDs(round)[j] == id)))
+//@ func (*base).WaitingFor
+//@   props C08 C06
+//@   requires round != nil && rsWF(round.ReSharingParameters)
+//@   requires [committee-sized-trackers] len(rsOldIDs(round)) == len(round.oldOK) && len(rsNewIDs(round)) == len(round.newOK)
+//@   ensures [C08.waiting-for-lists-only-awaited-peers] forall m in 0..len(result) :: rsAwaited(round, result[m])
+//@   ensures [C08.waiting-for-lists-every-awaited-old-peer] forall j in 0..len(round.oldOK) :: (!round.oldOK[j] ==> (exists m in 0..len(result) :: result[m] == rsOldIDs(round)[j]))
+//@   ensures [C08.waiting-for-lists-every-awaited-new-peer] forall j in 0..len(round.newOK) :: (!round.newOK[j] ==> (exists m in 0..len(result) :: result[m] == rsNewIDs(round)[j]))
+//@   loop 0 invariant idsMap != nil && fresh(idsMap) && oldPs == rsOldIDs(round) && newPs == rsNewIDs(round) && len(ids) == 0 && fresh(ids)
+//@   loop 0 invariant forall j in 0..$iter :: (!round.oldOK[j] ==> maphas(idsMap, oldPs[j]))
+//@   loop 0 invariant forall id :: (maphas(idsMap, id) ==> (exists j in 0..$iter :: (!round.oldOK[j] && oldPs[j] == id)))
+//@   loop 1 invariant idsMap != nil && fresh(idsMap) && oldPs == rsOldIDs(round) && newPs == rsNewIDs(round) && len(ids) == 0 && fresh(ids)
+//@   loop 1 invariant forall j in 0..len(round.oldOK) :: (!round.oldOK[j] ==> maphas(idsMap, oldPs[j]))
+//@   loop 1 invariant forall j in 0..$iter :: (!round.newOK[j] ==> maphas(idsMap, newPs[j]))
+//@   loop 1 invariant forall id :: (maphas(idsMap, id) ==> ((exists j in 0..len(round.oldOK) :: (!round.oldOK[j] && oldPs[j] == id)) || (exists j in 0..$iter :: (!round.newOK[j] && newPs[j] == id))))
+//@   loop 2 invariant idsMap != nil && oldPs == rsOldIDs(round) && newPs == rsNewIDs(round) && fresh(ids)
+//@   loop 2 invariant forall j in 0..len(round.oldOK) :: (!round.oldOK[j] ==> maphas(idsMap, oldPs[j]))
+//@   loop 2 invariant forall j in 0..len(round.newOK) :: (!round.newOK[j] ==> maphas(idsMap, newPs[j]))
+//@   loop 2 invariant forall id :: (maphas(idsMap, id) ==> rsAwaited(round, id))
+//@   loop 2 invariant forall m in 0..len(ids) :: maphas(idsMap, ids[m])
+//@   loop 2 invariant forall id :: (visited(idsMap, id) ==> (exists m in 0..len(ids) :: ids[m] == id))
